@@ -190,9 +190,10 @@ def _auer_discarding(m):
                                         lambda e: z3.And(z3.Select(A.S0, e), z3.Not(cert0(e))), lambda e: z3.Select(A.P0, e))
         try:
             paths = t.run(ALGOS["Auer"], "Auer.discarding", [], self_val=A.obj, setmode=True)
-        except Unsupported:
+        except Unsupported as ex_:
             bounded()
-            raise
+            t.fallback(str(ex_))
+            return
         t.must_fail()
         t.no_raise(paths)
         cert = _nocapture(lambda p: z3.Exists([q], z3.And(z3.Select(A.S0, q), q != p,
@@ -229,9 +230,10 @@ def _auer_pareto(m):
                           lambda e: z3.And(z3.Select(A.S0, e), z3.Not(newb(e))), lambda e: z3.Or(z3.Select(A.P0, e), newb(e)))
         try:
             paths = t.run(ALGOS["Auer"], "Auer.pareto_updating", [], self_val=A.obj, setmode=True)
-        except Unsupported:
+        except Unsupported as ex_:
             bounded()
-            raise
+            t.fallback(str(ex_))
+            return
         t.must_fail()
         t.no_raise(paths)
         P1 = lambda p: z3.And(z3.Select(A.S0, p), z3.Not(z3.Exists([q], z3.And(
